@@ -1103,8 +1103,8 @@ class _TftpReadRequest:
                 self._options,
                 socket_address_to_str(self._client_address),
             )
-            self._send(data)
             try:
+                self._send(data)
                 while not ack_received:
                     block_number = self._receive_ack()
                     # The ACK for the options ACK has to use a block number of
